@@ -713,6 +713,45 @@ func monC15(c *child.Ctx, replay json.RawMessage) {
 			c.Sample(map[string]interface{}{"kind": "history", "pool_size": len(pool), "order_prefix": k.Order[:20]})
 		}
 	}
+	// every message type, displayed again and again by fresh handlers and as one message
+	// value: the same frame reads the same every time (a title picked by walking a
+	// map, a cache filled by whoever comes first, would not)
+	for ty := c.Batch; ty < 4096; ty += c.NBatch {
+		body := []byte{byte(ty >> 4), byte(ty << 4), 0x00, 0x21, 0x00, 0x00, 0x00}
+		frame := ref.Frame(body)
+		reps := 6
+		if ty >= 1000 && ty <= 1300 || ty >= 4000 {
+			reps = 48
+		}
+		first := ""
+		var held *handler.Message
+		for rep := 0; rep < reps; rep++ {
+			func() {
+				defer func() { recover() }() // crashes belong to C07 and C20
+				h := handler.New(fixedStart, detLevels[rep%len(detLevels)])
+				m, _ := h.GetMessage(append([]byte(nil), frame...))
+				if m == nil {
+					return
+				}
+				if held == nil {
+					held = m
+				}
+				for _, mm := range []*handler.Message{m, held} {
+					mm.LogLevel = slog.LevelInfo
+					txt := stripTime(mm.String(), mm)
+					if first == "" {
+						first = txt
+					} else if txt != first {
+						cj, _ := json.Marshal(detCase{Kind: "alltypes", Order: []int{ty}})
+						c.Violate("display-not-repeatable", fmt.Sprintf("a frame of type %d displayed %d times (fresh handlers, and one message value again and again) does not always read the same: %s", ty, rep+1, diffText(txt, first)), cj)
+						rep = reps
+						return
+					}
+				}
+			}()
+		}
+		c.Count("types_displayed_repeatedly", 1)
+	}
 	// non-RTCM data of lengths around the longest frame (1029 bytes) and far beyond
 	{
 		k := detCase{Kind: "nonrtcm", Seed: r.Uint64() >> 1, Order: []int{1, 5, 6, 100, 101, 1023, 1026, 1028, 1029, 1030, 1031, 1032, 1033, 1040, 2048, 4097, r.Range(1034, 9000), r.Range(1034, 9000)}}
